@@ -18,3 +18,12 @@ Print Assumptions c20_order_free_inserts.
 Theorem c20_all_sites_classified : forallb (fun s => match class_of s with Some 0 | None => false | Some _ => true end) hash_sites = true.
 Proof. exact all_sites_classified. Qed.
 Print Assumptions c20_all_sites_classified.
+
+(* the one hash-map walk whose body writes into shared state (Records::update_fimg, classified "order-free by disjoint writes" among the
+   sites): the packed file image is the same for every order in which the records are taken (model Pack/Records.v, tied to the code
+   by the recpack stream of C13 and by the repeated-process oracle) *)
+From A2 Require Import Pack.Records Pack.RecordsProofs.
+Theorem c20_records_any_order : forall L rl force0 rs rs', 0 < L -> Permutation rs rs' -> NoDup (map fst rs) ->
+  (forall r d, In (r, d) rs -> lenN d <= rl) -> rec_pack L rl force0 rs = rec_pack L rl force0 rs'.
+Proof. exact rec_pack_order. Qed.
+Print Assumptions c20_records_any_order.
